@@ -2,14 +2,16 @@ SPECIFICATION Spec
 CONSTANTS
   Peers = {1, 2, 3}
   MaxR = 4
-  PT <- PTRepairNoWrong
+  PT <- PTRepair
   Modes = {"repair"}
   ChainedSet = {TRUE, FALSE}
   Starts = {3}
-  Targets = {3, 4}
-  Corruptions <- CorrQuick
+  Targets = {2, 3, 4}
+  Corruptions <- CorrFullNoAbort
   NT = 1
-  FollowRetries = FALSE
+  FollowRetries = TRUE
+  FollowAppend = TRUE
+  ResyncChecksRound = TRUE
   MaxAgg = 0
   QCap = 1
   Linger = FALSE
